@@ -430,6 +430,15 @@ def skeleton(F, fns):
             for s in b.stmts(sb):
                 if s.get("k") != "assign":
                     continue
+                # constant stores into the predictor's own state: which field, and whether on every successful path
+                if s["p"]["l"] == 1 and s["p"]["p"] and b.argc >= 1:
+                    names = [e.get("n") for e in s["p"]["p"] if isinstance(e, dict) and e.get("n")]
+                    v = flow.describe_rvalue(b, s["r"], names=False)
+                    if names and (re.match(r"^K-?\d+$", v) or v.startswith("None")):
+                        from .. import err as _err
+                        prods = [pb for pb, _ in _err.result_producers(b, F)] or [x for x in b.normal_blocks() if b.term(x)["k"] == "return"]
+                        always = all(b.dominates(sb, pb) for pb in prods)
+                        cnt[("reset", ".".join(names), v, "always" if always else "conditional")] += 1
                 places = [s["p"]]
                 r = s["r"]
                 for key in ("op", "l", "r", "place"):
